@@ -58,7 +58,9 @@ def is_solution(cnf, assignment):
     return True
 
 def solve_cnf(cnf, *, debug=False):
-    cnf = copy(cnf)  # avoid modifying the input
+    # avoid modifying the input; repeated literals within a clause are dropped
+    # (a clause with a repeated literal is never unit, which stalls propagation)
+    cnf = [[lit for i, lit in enumerate(clause) if lit not in clause[:i]] for clause in cnf]
     assigns = dict()
     level = 0
     proofs = dict()
